@@ -647,4 +647,36 @@ Theorem src_calculate_bad_chunk : forall (n k c : Z) t, chunk_checked n k c = Er
   src_calculate_pairwise V vzero visz Th Pr n get_theta predict dist k c = Err t.
 Proof. intros n k c t H. unfold src_calculate_pairwise. now rewrite src_chunk_is_model, H. Qed.
 End Calc.
+
+(* ---- save / load (h5py calls as primitives over the record of the file's four datasets) ---- *)
+Theorem src_save_is_model : forall st, src_cdm_save V vzero visz st = Ok (file_of_storage st).
+Proof. reflexivity. Qed.
+
+(* loading what save wrote rebuilds the object over fresh storage (the same construction as combine's copy): it is
+   well formed and represents the same matrix - the model's dm_load (dm_save m) = m *)
+Lemma src_load_of_saved st : ok st -> src_cdm_load V vzero visz (file_of_storage st) = Ok (composed1 st).
+Proof.
+  intros Hok. destruct (comp_chunk_bounds st Hok) as [B1 B2]. pose proof Hok as (H1 & H2 & H3 & H4 & H5).
+  unfold src_cdm_load, file_of_storage, h5_first, h5_dataset. cbn [f_rows f_cols f_vals f_size res_bind].
+  change (list_get [c_size st] 0) with (Ok (c_size st) : result Z). cbn [res_bind].
+  assert (EL : Z.of_nat (length (np_prefix (c_vals st) (c_cur st))) = c_cur st)
+    by (rewrite np_prefix_nonneg, firstn_length, Nat.min_l by lia; lia).
+  rewrite EL. rewrite combine_init by exact Hok. cbn [res_bind].
+  unfold cdm_store_rows, cdm_store_cols, cdm_store_vals.
+  cbn [cdm_fresh c_rows c_cols c_vals set_c_rows set_c_cols set_c_vals c_size c_chunk c_cur].
+  rewrite np_store_prefix_ok by (rewrite ?repeat_length; lia).
+  cbn [res_bind cdm_fresh c_rows c_cols c_vals set_c_rows set_c_cols set_c_vals c_size c_chunk c_cur].
+  rewrite np_store_prefix_ok by (rewrite ?repeat_length; lia).
+  cbn [res_bind cdm_fresh c_rows c_cols c_vals set_c_rows set_c_cols set_c_vals c_size c_chunk c_cur].
+  rewrite np_store_prefix_ok by (rewrite ?repeat_length; lia).
+  cbn [res_bind cdm_fresh c_rows c_cols c_vals set_c_rows set_c_cols set_c_vals set_c_cur c_size c_chunk c_cur].
+  reflexivity.
+Qed.
+
+Theorem src_load_save_is_model : forall st, ok st ->
+  refines (dor f <- src_cdm_save V vzero visz st; src_cdm_load V vzero visz f) (Ok (dm_load V (dm_save V (abs st)))).
+Proof.
+  intros st Hok. rewrite src_save_is_model. cbn [res_bind]. rewrite src_load_of_saved by exact Hok.
+  cbn [storage_refines]. destruct (composed1_ok st Hok) as [C1 C2]. split; [exact C1 | rewrite C2; reflexivity].
+Qed.
 End Mat.
